@@ -729,6 +729,47 @@ def replay_l2(ws, root, h, r, fails, crate, fq, prop="C04", no_playback=False):
                             "native_failures": bad[:10], "log": lp}
 
 
+TABLE_UNITS = ["body_item", "body", "field_def", "arg_value_list", "class_ref", "slice_element", "def", "defm",
+               "identifier_or_class_value", "type", "simple_value", "dag", "range_piece", "template_arg_decl"]
+
+
+def replay_tables(ws, root, h, r, fails, crate, fq):
+    """a constant token table (VALUE_START / TYPE_FIRST_TOKENS / RECOVER_TOKENS) no longer equals
+    its summary: confirm natively on the sentence spaces of the units that consult the tables"""
+    import realise, gen_rules
+    binp = build_native(ws)
+    listed = {f["id"] for f in load_known_findings().get("findings", [])}
+    o4 = make_oracle_c04(listed)
+    bad = []
+    texts0 = realise.first_set_battery(gen_rules.FIRST["Type"], gen_rules.FIRST["Value"])
+    tried = len(texts0)
+    for x in native_parse_props(binp, texts0):
+        why = o4(x) or oracle_c02(x)
+        if why:
+            bad.append({"text": x.get("text"), "why": why, "unit": "first-set battery"})
+    for u in gen_rules.UNITS:
+        if bad:
+            break
+        if u[0] not in TABLE_UNITS:
+            continue
+        boundary = set()
+        for c in u[3]:
+            if gen_rules.CALLEES[c][1] == "stmtlist":
+                boundary |= set(gen_rules.STMTLIST_NTS)
+            else:
+                boundary.add(gen_rules.callee_nt(c))
+        _s, _e, _t, classes, _n = gen_rules.compile_unit(u[2], boundary)
+        texts = realise.enumerate_unit(u[0], classes, maxlen=min(5, u[4] + 1), limit=20000)
+        tried += len(texts)
+        for x in native_parse_props(binp, texts):
+            why = o4(x) or oracle_c02(x)
+            if why:
+                bad.append({"text": x.get("text"), "why": why, "unit": u[0]})
+        if bad:
+            break
+    return (len(bad) > 0), {"texts_tried": tried, "native_failures": bad[:10]}
+
+
 def oracle_c01c02(x):
     return oracle_c01(x) or oracle_c02(x)
 
@@ -800,6 +841,7 @@ REPLAYS = {
     "pp_hang": replay_search(oracle_c02, PP_ALPHABET, 6),
     "lex_hang": replay_search(oracle_c02, LEX_ALPHABET, 4),
     "l2": replay_l2,
+    "tables": replay_tables,
 }
 
 
